@@ -122,12 +122,12 @@ func checkFromFloat32(w *eng.W, f float32, oracle bool) {
 }
 
 var (
-	maxF64Rat  = new(big.Rat).SetFloat64(math.MaxFloat64)
-	minF64Rat  = new(big.Rat).SetFloat64(math.SmallestNonzeroFloat64)
-	maxF32Rat  = new(big.Rat).SetFloat64(math.MaxFloat32)
-	minF32Rat  = new(big.Rat).SetFloat64(math.SmallestNonzeroFloat32)
-	twoTo1024  = new(big.Rat).SetInt(new(big.Int).Lsh(big.NewInt(1), 1024))
-	twoTo128   = new(big.Rat).SetInt(new(big.Int).Lsh(big.NewInt(1), 128))
+	maxF64Rat = new(big.Rat).SetFloat64(math.MaxFloat64)
+	minF64Rat = new(big.Rat).SetFloat64(math.SmallestNonzeroFloat64)
+	maxF32Rat = new(big.Rat).SetFloat64(math.MaxFloat32)
+	minF32Rat = new(big.Rat).SetFloat64(math.SmallestNonzeroFloat32)
+	twoTo1024 = new(big.Rat).SetInt(new(big.Int).Lsh(big.NewInt(1), 1024))
+	twoTo128  = new(big.Rat).SetInt(new(big.Int).Lsh(big.NewInt(1), 128))
 )
 
 // adjacentOK decides whether float f (as float64 value; is32 selects the float32 grid) is an acceptable
